@@ -733,4 +733,26 @@ def handle (st : St) (line : String) : St × String :=
   | "cat" :: rest => catOps st rest
   | _ => (st, "bad-op")
 
+/-! several connections: `@<i> <line>` runs the line on connection i's own state (the step of `Mimic.Server.runInter`) -/
+
+structure Multi where
+  conns : List (Nat × St) := []
+
+def Multi.get (m : Multi) (i : Nat) : St := (m.conns.lookup i).getD {}
+
+def Multi.set (m : Multi) (i : Nat) (s : St) : Multi := { conns := (i, s) :: m.conns.filter (fun p => p.1 != i) }
+
+def handleMulti (m : Multi) (line : String) : Multi × String :=
+  if line.startsWith "@" then
+    match ((line.drop 1).toString.splitOn " ") with
+    | i :: rest => match i.toNat? with
+      | some i =>
+        let r := handle (m.get i) (" ".intercalate rest)
+        (m.set i r.1, r.2)
+      | none => (m, "bad-op")
+    | [] => (m, "bad-op")
+  else
+    let r := handle (m.get 0) line
+    (m.set 0 r.1, r.2)
+
 end Mimic.Drv
